@@ -1,5 +1,5 @@
 (** Property C12 — Borda orders elements by mean positional score, per the documented variants. *)
-From Corankco Require Import Prelude Scheme SchemeProof Rank GroupSort Borda BordaProof.
+From Corankco Require Import Prelude Scheme SchemeProof Rank GroupSort Borda BordaProof BordaComplete.
 Local Open Scope Z_scope.
 
 (** a partition of the universe into non-empty buckets, in increasing order of mean score, tied
@@ -60,6 +60,14 @@ Print Assumptions C12_accepts_multiples.
 Theorem C12_complete_never_refused : forall ub s D, is_complete D = true -> exists r, borda ub s D = Ok r.
 Proof. exact borda_complete_never_refused. Qed.
 Print Assumptions C12_complete_never_refused.
+
+(** on a complete dataset nothing is missing: unification changes nothing and the consensus is the same whatever the scheme *)
+Theorem C12_complete_unification_is_identity : forall D, is_complete D = true -> unified_rankings D = D.
+Proof. exact unified_complete. Qed.
+Print Assumptions C12_complete_unification_is_identity.
+Theorem C12_complete_ignores_scheme : forall ub s D, is_complete D = true -> borda ub s D = Ok (borda_on ub D).
+Proof. exact borda_complete_ignores_scheme. Qed.
+Print Assumptions C12_complete_ignores_scheme.
 
 (** the float side (FloatMeans.v): the library compares the binary64 quotients total / count; for totals up to 2^20 and counts up to 2^10
     they compare exactly like the means compared by cross-multiplication in the model.  This theorem, and only this one, rests on the
